@@ -142,7 +142,19 @@ let () =
   let engine payload vhs parent =
     engine_seen := (payload, List.map (fun h -> hex_of_string (string_of_bytes h)) vhs, hex_of_string (string_of_bytes parent)) :: !engine_seen;
     !engine_verdict in
-  let env = mk_env cfg (bls_verify1 bls) (bls_fav bls) (bls_agg bls) engine in
+  (* memo table for 64-byte inputs (Merkle nodes): most of a state's tree is unchanged from slot to slot *)
+  let memo : (string, n list) Hashtbl.t = Hashtbl.create 200000 in
+  let hash (input : n list) : n list =
+    match input with
+    | _ when List.compare_length_with input 64 = 0 ->
+        let key = string_of_bytes input in
+        (match Hashtbl.find_opt memo key with
+         | Some r -> r
+         | None -> let r = sha256 input in
+                   if Hashtbl.length memo > 2000000 then Hashtbl.reset memo;
+                   Hashtbl.add memo key r; r)
+    | _ -> sha256 input in
+  let env = mk_env cfg hash (bls_verify1 bls) (bls_fav bls) (bls_agg bls) engine in
   let states : (string, fork * string) Hashtbl.t = Hashtbl.create 100 in
   let blocks : (string, fork * string) Hashtbl.t = Hashtbl.create 100 in
   let blob f = read_file (Filename.concat dir f) in
